@@ -99,7 +99,8 @@ type Field struct {
 	OneofValue    *string  `json:"oneof_value,omitempty"`
 	Query         *Query   `json:"query,omitempty"`
 	Examples      []string `json:"examples,omitempty"`
-	Rules         string   `json:"rules,omitempty"` // prototext of buf.validate.FieldRules
+	Rules         string   `json:"rules,omitempty"`     // prototext of buf.validate.FieldRules
+	JSONName      string   `json:"json_name,omitempty"` // explicit json_name option (default: lowerCamel of the name)
 	Comment       string   `json:"comment,omitempty"`
 }
 
@@ -147,6 +148,7 @@ func Ts(name string) *Field {
 }
 
 func (f *Field) Opt() *Field             { f.Card = "optional"; return f }
+func (f *Field) JN(n string) *Field      { f.JSONName = n; return f }
 func (f *Field) Rep() *Field             { f.Card = "repeated"; return f }
 func (f *Field) Map() *Field             { f.Card = "map"; return f }
 func (f *Field) MapK(k string) *Field    { f.Card = "map"; f.KeyKind = k; return f }
